@@ -1,6 +1,7 @@
 package rules
 
 import (
+	"go/types"
 	"fmt"
 	"go/token"
 	"strings"
@@ -35,8 +36,13 @@ func c07Sender(c *Ctx) {
 	if !c.Anchor(fb != nil && newFn != nil, "sender-never-blocks", "file.FileBackend / file.New") {
 		return
 	}
+	// the request channel: the backend's only channel-typed field
+	reqField := fieldByType(fb, func(t types.Type) bool { _, isChan := t.Underlying().(*types.Chan); return isChan })
+	if !c.Anchor(reqField != "", "sender-never-blocks", "FileBackend's channel field") {
+		return
+	}
 	isReq := func(v ssa.Value) bool {
-		_, ok := isFieldLoadNamed(v, "request")
+		_, ok := isFieldLoadNamed(v, reqField)
 		return ok
 	}
 	// consumers: functions receiving from .request
@@ -132,6 +138,41 @@ func c07Sender(c *Ctx) {
 	}
 }
 
+// probedAbsent: at instruction `at` it is known that an os.Stat/Lstat of exactly the name v has just failed.
+func probedAbsent(v ssa.Value, at ssa.Instruction) bool {
+	for _, dc := range DomConds(at) {
+		b, isB := dc.V.(*ssa.BinOp)
+		var errV ssa.Value
+		probeFailed := false
+		if isB && IsNilConst(b.Y) {
+			errV = b.X
+			probeFailed = (b.Op == token.NEQ && dc.Pol) || (b.Op == token.EQL && !dc.Pol)
+		} else if pc, isC := dc.V.(*ssa.Call); isC && FuncIs(pc.Call.StaticCallee(), "os", "IsNotExist") && dc.Pol {
+			errV = pc.Call.Args[0]
+			probeFailed = true
+		}
+		if !probeFailed || errV == nil {
+			continue
+		}
+		ex, isE := errV.(*ssa.Extract)
+		if !isE || ex.Index != 1 {
+			continue
+		}
+		probe, isC := ex.Tuple.(*ssa.Call)
+		if !isC {
+			continue
+		}
+		pf := probe.Call.StaticCallee()
+		if pf == nil || !(FuncIs(pf, "os", "Stat") || FuncIs(pf, "os", "Lstat")) {
+			continue
+		}
+		if probe.Call.Args[0] == v {
+			return true
+		}
+	}
+	return false
+}
+
 func c07Rotate(c *Ctx) {
 	p := c.P
 	n := 0
@@ -143,35 +184,19 @@ func c07Rotate(c *Ctx) {
 			}
 			n++
 			newName := call.Common().Args[1]
-			ok := false
-			for _, dc := range DomConds(call) {
-				b, isB := dc.V.(*ssa.BinOp)
-				var errV ssa.Value
-				probeFailed := false
-				if isB && IsNilConst(b.Y) {
-					errV = b.X
-					probeFailed = (b.Op == token.NEQ && dc.Pol) || (b.Op == token.EQL && !dc.Pol)
-				} else if pc, isC := dc.V.(*ssa.Call); isC && FuncIs(pc.Call.StaticCallee(), "os", "IsNotExist") && dc.Pol {
-					errV = pc.Call.Args[0]
-					probeFailed = true
-				}
-				if !probeFailed || errV == nil {
-					continue
-				}
-				ex, isE := errV.(*ssa.Extract)
-				if !isE || ex.Index != 1 {
-					continue
-				}
-				probe, isC := ex.Tuple.(*ssa.Call)
-				if !isC {
-					continue
-				}
-				pf := probe.Call.StaticCallee()
-				if pf == nil || !(FuncIs(pf, "os", "Stat") || FuncIs(pf, "os", "Lstat")) {
-					continue
-				}
-				if probe.Call.Args[0] == newName {
-					ok = true
+			ok := probedAbsent(newName, call)
+			if !ok {
+				// the name may come from a helper: then every value the helper returns must have just failed its probe there
+				if hc, isC := newName.(*ssa.Call); isC {
+					if hf := hc.Call.StaticCallee(); hf != nil && InRepo(hf) && hf.Blocks != nil && len(Returns(hf)) > 0 {
+						ok = true
+						for _, r := range Returns(hf) {
+							rv := RetVals(r)
+							if len(rv) != 1 || !probedAbsent(rv[0], r) {
+								ok = false
+							}
+						}
+					}
 				}
 			}
 			c.Check(ok, "rotated-name-unique", shortFn(fn)+" os.Rename target", p.InstrPos(call), "rename only onto a name whose existence probe just failed", "the active log file is renamed onto a name that was not probed for existence (`"+RenderN(newName, 3)+"`): a name built from a second-resolution timestamp repeats when two rotations fall into the same second and the earlier rotated file is overwritten")
